@@ -121,7 +121,11 @@ impl<T: Value> ErasedObserver for InternalObserver<T> {
             Disallowed | Unlinked => Ok(()),
             Created | InUse => {
                 // delete from the list in either case
-                self.on_update_handlers.borrow_mut().remove(&token);
+                let removed = self.on_update_handlers.borrow_mut().remove(&token);
+                if removed.is_none() {
+                    // already unsubscribed: the node's handler count was adjusted then
+                    return Ok(());
+                }
 
                 match self.state.get() {
                     Created => {
